@@ -4,6 +4,7 @@
 // Includes no repository header.
 #pragma once
 #include <algorithm>
+#include <cstring>
 #include <map>
 #include <set>
 #include <string>
@@ -914,6 +915,8 @@ inline bool is_punct(const std::string &s) {
 struct Layout {
   std::map<std::string, std::string> files;
   std::string main = "main.theo";
+  int blank_includes = 0;  // free layout: includes of files without any token
+  int body_includes = 0;   // free layout: macro bodies whose tail is an included file
   // canonical layout only: (file, line) of every printed token, and the statement/END token indices
   std::vector<std::pair<std::string, int>> tokpos;
   std::map<const Stmt *, size_t> first_tok, end_tok;
@@ -922,13 +925,30 @@ struct Layout {
 
 // file names: "all file maps" includes long paths and names with unusual characters
 inline std::string name_prefix(Tape &t) {
-  switch (t.weighted({8, 1, 1, 1, 1})) {
+  switch (t.weighted({8, 1, 1, 1, 1, 1, 1})) {
+    case 5: return "__";   // user files whose names look reserved (only "__standards__" is)
+    case 6: return "Cc/";  // names that differ only in letter case (see twin_name)
     case 1: return "a very/long/path/with some spaces/and-a-lot-of-characters/so that fixed size buffers overflow/0123456789/0123456789/0123456789/x/";
     case 2: return "d\xc3\xa4 r/#1:$0;";
     case 3: return "_";
     case 4: return std::string("n\0", 2);  // names that agree up to an embedded NUL byte
     default: return "";
   }
+}
+
+// scheme "Cc/": the n-th file of a family is a case variant of the family's stem ("Cc/main.theo" is the main file, so
+// the first part "Cc/MAIN.theo" is its twin); unique per (stem, n)
+inline std::string twin_name(const std::string &stem, int n) {
+  std::string v = stem;
+  switch ((n - 1) % 6) {
+    case 0: for (auto &c : v) c = (char)toupper((unsigned char)c); break;
+    case 1: v[0] = (char)toupper((unsigned char)v[0]); break;
+    case 2: for (size_t i = 1; i < v.size(); i++) v[i] = (char)toupper((unsigned char)v[i]); break;
+    case 3: v[v.size() - 1] = (char)toupper((unsigned char)v[v.size() - 1]); break;
+    case 4: v[0] = (char)toupper((unsigned char)v[0]); v[1] = (char)toupper((unsigned char)v[1]); break;
+    case 5: v[1] = (char)toupper((unsigned char)v[1]); break;
+  }
+  return "Cc/" + v + (n > 6 ? std::to_string(n) : std::string()) + ".theo";
 }
 
 // canonical layout: one statement per line, labels on their statement's line, header and END on own lines.
@@ -1032,7 +1052,7 @@ inline Layout layout_canonical(const Program &p, Tape &t, int nfiles) {
     if (len == src.size()) len--;
     if (len == 0) continue;
     if (from == shared_name) continue;  // the shared file stays as it is
-    std::string name = digit_names ? "m" + std::to_string(f) : prefix + "inc" + std::to_string(f) + ".theo";
+    std::string name = digit_names ? "m" + std::to_string(f) : prefix == "Cc/" ? twin_name("main", f) : prefix + "inc" + std::to_string(f) + ".theo";
     std::vector<Entry> moved(src.begin() + (long)a, src.begin() + (long)(a + len));
     src.erase(src.begin() + (long)a, src.begin() + (long)(a + len));
     src.insert(src.begin() + (long)a, Entry{true, Line(), name});
@@ -1063,10 +1083,32 @@ inline Layout layout_canonical(const Program &p, Tape &t, int nfiles) {
 // free layout: arbitrary separators between any two tokens, all keyword spellings, comments,
 // macro definitions anywhere at top level of the text, arbitrary token-boundary file splits.
 // macro definitions in free layout: body on its own line, or two definitions on one line
-inline std::string defs_free(const std::vector<std::string> &defs, Tape &t) {
+inline std::string defs_free(const std::vector<std::string> &defs, Tape &t, const std::string &prefix,
+                             std::map<std::string, std::string> &files, int &body_includes) {
   std::string out;
   for (size_t i = 0; i < defs.size(); i++) {
     std::string d = defs[i];
+    // the tail of a macro body may live in a file of its own (an include inside the body)
+    if (t.chance(1, 6)) {
+      size_t as = d.find(" AS ");
+      if (as == std::string::npos) as = d.find(" As ");
+      if (as == std::string::npos) as = d.find(" as ");
+      size_t term = std::string::npos;
+      for (const char *e : {" END DEFINE", " Enddef", " enddef", " ENDDEF"}) {
+        size_t q = d.rfind(e);
+        if (q != std::string::npos && q + strlen(e) == d.size()) term = q;
+      }
+      std::vector<size_t> cuts;
+      if (as != std::string::npos && term != std::string::npos)
+        for (size_t q = d.find("; ", as); q != std::string::npos && q < term; q = d.find("; ", q + 1)) cuts.push_back(q + 1);
+      if (!cuts.empty()) {
+        size_t cut = cuts[t.pick((unsigned)cuts.size())];
+        std::string name = prefix + "body" + std::to_string(i) + ".theo";
+        files[name] = d.substr(cut + 1, term - cut - 1);
+        d = d.substr(0, cut) + " include \"" + name + "\"" + d.substr(term);
+        body_includes++;
+      }
+    }
     if (t.chance(1, 4)) {
       size_t as = d.find(" AS ");
       if (as == std::string::npos) as = d.find(" As ");
@@ -1091,13 +1133,21 @@ inline Layout layout_free(const Program &p, Tape &t, int nfiles) {
   bool digit_names = prefix == "_";  // scheme "m", "m1", "m2", ...: one name is another name plus a digit
   if (digit_names) L.main = "m";
   bool defs_in_file = !defs.empty() && nfiles > 1 && t.chance(1, 2);
-  std::string defs_text = defs_free(defs, t);
+  std::string defs_text = defs_free(defs, t, prefix, L.files, L.body_includes);
   for (auto &k : pr.out) toks.push_back(k.text);
-  // separators
+  // separators; in a quarter of the layouts a separator may also be an include of a file that contributes no token
+  // (empty, blank, or a comment only) - anywhere between two tokens, also in the middle of a statement
+  bool blank_inc = t.chance(1, 4);
+  std::string blank_name = prefix + "blank.theo";
+  if (blank_inc) {
+    static const char *BL[] = {"", " \n\t", "// nothing here\n", "\n\n"};
+    L.files[blank_name] = BL[t.pick(4)];
+  }
   std::vector<std::string> seps(toks.size() + 1, " ");
   for (size_t i = 1; i < toks.size(); i++) {
     bool glue_ok = (is_punct(toks[i - 1]) || is_punct(toks[i])) && !(toks[i - 1] == ":" && toks[i][0] == '=');
-    switch (t.weighted({8, 3, (unsigned)(glue_ok ? 4 : 0), 1, 1, 1})) {
+    switch (t.weighted({8, 3, (unsigned)(glue_ok ? 4 : 0), 1, 1, 1, (unsigned)(blank_inc ? 1 : 0)})) {
+      case 6: seps[i] = " include \"" + blank_name + "\"\n"; L.blank_includes++; break;
       case 0: seps[i] = " "; break;
       case 1: seps[i] = "\n"; break;
       case 2: seps[i] = ""; break;
@@ -1143,13 +1193,14 @@ inline Layout layout_free(const Program &p, Tape &t, int nfiles) {
     for (size_t i = pos; i < c.a; i++) text += seps[i] + toks[i];
     std::string name = c.name;
     if (name.empty()) {
-      name = digit_names ? "m" + std::to_string(++fno) : prefix + "part" + std::to_string(++fno) + ".theo";
+      ++fno;
+      name = digit_names ? "m" + std::to_string(fno) : prefix == "Cc/" ? twin_name("main", fno) : prefix + "part" + std::to_string(fno) + ".theo";
       std::string body;
       for (size_t i = c.a; i < c.b; i++) body += (i == c.a ? "" : seps[i]) + toks[i];
       // optionally nest: split the part once more
       if (c.b - c.a >= 4 && t.chance(1, 3)) {
         size_t mid = c.a + 1 + t.pick((unsigned)(c.b - c.a - 2));
-        std::string n2 = digit_names ? "m" + std::to_string(fno) + "2" : prefix + "sub" + std::to_string(fno) + ".theo";
+        std::string n2 = digit_names ? "m" + std::to_string(fno) + "2" : prefix == "Cc/" ? twin_name("sub", fno) : prefix + "sub" + std::to_string(fno) + ".theo";
         std::string b1, b2;
         for (size_t i = c.a; i < mid; i++) b1 += (i == c.a ? "" : seps[i]) + toks[i];
         for (size_t i = mid; i < c.b; i++) b2 += (i == mid ? "" : seps[i]) + toks[i];
